@@ -256,6 +256,11 @@ GEN_RES = (" ALSO, harness/translate_results.py re-translates the closure Result
            "into generated/ResGen.v on every run (_obj_func_results pinned by digest); proofs/ResTie.v proves that this wrapper around the GENERATED "
            "memory wrapper (memory on) or the raw objective (memory off) is the model's inner_score, i.e. the whole path position -> value -> para "
            "-> (memory) -> objective -> row is generated code proved against the model.")
+GEN_CORE = (" ALSO, harness/translate_coreopt.py re-translates CoreOptimizer.move_random, conv2pos, move_climb and the random_iteration wrapper "
+            "of core_optimizer.py into generated/CoreGen.v on every run (loops, constraint test before every return, far-outside escape, restart "
+            "test translated; the numpy vector arithmetic pinned by source text to the primitives of theories/CoreOpt.v); proofs/CoreTie.v proves "
+            "the generated move_random / conv2pos EQUAL to the model and move_climb input/output-equivalent, so the closure theorems hold for "
+            "what the source says now.")
 EXTRA = {
     "C12": GEN_STOP + " Theorems C12_source_score_exceeded_refines, C12_source_check_refines." + GEN_SEARCH + " Theorem C12_source_search_max_score_exact.",
     "C03": GEN_SEARCH + " Theorems C03_source_search_step_refines, C03_source_search_loop_refines, C03_source_call_accounting.",
@@ -271,16 +276,19 @@ EXTRA = {
             "on every run; proofs/GridTie.v proves they refine theories/Grid.v, and C16_source_diag_covers / C16_source_orth_covers "
             "restate the coverage theorem for the GENERATED code (assumptions: no constraints, conv2pos is the identity inside the "
             "box, conv.dim_sizes / search_space_size are the sizes and their product - each an observable the K/S-units compare)."),
-    "C08": (" ALSO: finding F-D5 is machine-checked against the code generated from diagonal_grid_search.py: "
+    "C08": (GEN_CORE + " Theorems C08_source_move_random_first_feasible, C08_source_move_climb_exits_at_first_feasible, C08_source_move_climb_progress, C08_source_random_iteration_dispatch."
+            " ALSO: finding F-D5 is machine-checked against the code generated from diagonal_grid_search.py: "
             "C08_source_diag_livelock_refuted (for EVERY amount of fuel the translated iterate does not return on a 1x4 space with "
             "3/4 feasible). The iterate steps of ParticleSwarm / Spiral / DifferentialEvolution are modelled (theories/Pop.v) and "
             "replayed step by step with exact constraint-evaluation counts (S-unit)."),
-    "C01": (" ALSO: the iterate steps of ParticleSwarmOptimizer, SpiralOptimization, DifferentialEvolutionOptimizer and the "
+    "C01": (GEN_CORE + " Theorems C01_source_move_random_equals_model, C01_source_conv2pos_equals_model, C01_source_move_climb_same_results, C01_source_*_in_box."
+            " ALSO: the iterate steps of ParticleSwarmOptimizer, SpiralOptimization, DifferentialEvolutionOptimizer and the "
             "recombination step of EvolutionStrategy / GeneticAlgorithm are modelled (theories/Pop.v; the float vectors - new "
             "velocity, spiral point, mutant - are oracle tape entries recomputed by the harness) with closure theorems "
             "C01_pso_iterate, C01_spiral_iterate, C01_de_iterate, C01_es_iterate, C01_cross_or_climb (in box and feasible for every tape), tied "
             "to /repo by an S-unit replaying every iteration step of real runs (position, draws consumed, constraint evaluations)."),
-    "C02": (" ALSO: C02_pso_iterate, C02_spiral_iterate, C02_de_iterate, C02_cross_or_climb (theories/Pop.v): the emitted position "
+    "C02": (GEN_CORE + " Theorems C02_source_move_random_feasible, C02_source_move_climb_feasible, C02_source_random_iteration_feasible."
+            " ALSO: C02_pso_iterate, C02_spiral_iterate, C02_de_iterate, C02_cross_or_climb (theories/Pop.v): the emitted position "
             "of the population optimizers' iterate is feasible on every path (first candidate, constraint loop, move_climb fallback, "
             "random restart), tied to /repo by the S-unit replaying every iteration step of real runs under coupled constraints."),
 }
@@ -296,7 +304,7 @@ def main():
         tech, text, note, ref = CLAIMS[pid]
         text = text + EXTRA.get(pid, "")
         if pid in EXTRA:
-            tech = tech + " + source translator with machine-checked refinement (generated Gallina)" if pid not in ("C01", "C02") else tech
+            tech = tech + " + source translator with machine-checked refinement (generated Gallina)"
         checks.append(dict(
             property_id=pid,
             quick_cmd="python3 harness/check.py %s --tier quick" % pid,
@@ -320,8 +328,8 @@ def main():
                    source_commits=[], add_only=True),
         engines=[
             dict(name="coq-model", path="/verif/coq", serves_properties=sorted(CLAIMS), kind_free_text="hand-written Gallina model (theories/), lemmas (proofs/), property theorems (props/Prop_Cxx.v, each with Print Assumptions)"),
-            dict(name="source-translators", path="/verif/harness/pytrans.py", serves_properties=["C03", "C04", "C05", "C06", "C08", "C11", "C12", "C13", "C14", "C15", "C16", "C18", "C19"],
-                 kind_free_text="translate_facades.py (C18 data), translate_core.py (tracker layer: C15, C19), translate_driver.py (_stop_run.py, _progress_bar.py: C05, C12-C14), translate_grid.py (grid search: C16, C08), translate_search.py (search.py driver: C03, C12-C14, C18), translate_memory.py (_memory.py wrapper: C06, C11), translate_results.py (_results_manager.py wrapper: C04): Gallina regenerated from /repo's AST on every run, refinement to the hand model proved in proofs/*Tie.v"),
+            dict(name="source-translators", path="/verif/harness/pytrans.py", serves_properties=["C01", "C02", "C03", "C04", "C05", "C06", "C08", "C11", "C12", "C13", "C14", "C15", "C16", "C18", "C19"],
+                 kind_free_text="translate_facades.py (C18 data), translate_core.py (tracker layer: C15, C19), translate_driver.py (_stop_run.py, _progress_bar.py: C05, C12-C14), translate_grid.py (grid search: C16, C08), translate_search.py (search.py driver: C03, C12-C14, C18), translate_memory.py (_memory.py wrapper: C06, C11), translate_results.py (_results_manager.py wrapper: C04), translate_coreopt.py (core_optimizer.py moves: C01, C02, C08): Gallina regenerated from /repo's AST on every run, refinement to the hand model proved in proofs/*Tie.v"),
             dict(name="correspondence", path="/verif/harness", serves_properties=sorted(CLAIMS), kind_free_text="K/D/S units: implementation and model run on the same inputs; the model is evaluated inside Coq (generated cases files, vm_compute)"),
             dict(name="monitors", path="/verif/harness/props", serves_properties=sorted(CLAIMS), kind_free_text="direct Python encodings of each property used to find concrete failing inputs (replays); never the proof"),
         ],
